@@ -108,7 +108,7 @@ class C17(vlib.Check):
                         , (b'{_\xe94}', ['i32:7']), (b'{}\x80', ['S:e282']), (b'{.2}{}', ['s:f09f9880', 's:9880'])]
         pairs += known_shapes
         # seeded soups
-        nrand = 150 if quick else 3000
+        nrand = 500 if quick else 4000
         for _ in range(nrand):
             nf = rng.choice([1, 2, 3])
             f = b''
